@@ -69,6 +69,16 @@ EXC_BASES = {"struct.error": ("Exception",), "binascii.Error": ("ValueError", "E
 EXC_NAMES = {"ValueError", "TypeError", "KeyError", "IndexError", "Exception", "RuntimeError", "NotImplementedError", "AttributeError"}
 
 
+class Obj(object):
+    """an opaque stand-in object of a model (a compiled pattern, a match): true, equal only to itself, no attributes; its
+    methods are the evaluator's method_stubs"""
+    def __init__(self, name):
+        self.name = name
+
+    def __repr__(self):
+        return "<%s>" % self.name
+
+
 class MiniEval(object):
     def __init__(self, repo, folder, fi, symbolic=(), max_steps=20000, self_attrs=None, stubs=None, stop_at=()):
         self.self_attrs = dict(self_attrs or {})      # constant instance attributes of the receiver (self.buf = b"...")
@@ -460,6 +470,10 @@ class MiniEval(object):
             return ("<exc>", e.func.id, tuple(args))
         if isinstance(e.func, ast.Attribute):
             base = self.ev(e.func.value, env)
+            if isinstance(base, Obj):
+                if e.func.attr in getattr(self, "method_stubs", {}):
+                    return self.method_stubs[e.func.attr](base, *args, **kwargs)
+                raise Undecided("minieval: method %s of a stand-in object" % e.func.attr)
             if isinstance(base, tuple) and base and base[0] == "<sym>" and e.func.attr in getattr(self, "method_stubs", {}):
                 return self.method_stubs[e.func.attr](base, *args, **kwargs)
             if isinstance(base, tuple) and base and base[0] == "<sym>" and getattr(self, "symbolic_methods", False):
